@@ -262,8 +262,11 @@ public:
         constexpr size_t _Stride = SIMDVector<T,simd_abi_type>::Size;
         SIMDVector<U,simd_abi_type> _vec;
         U inds[_Stride];
-        for (FASTOR_INDEX j=0; j<_Stride; ++j)
-            inds[j] = fl_expr.teval_s(as) ? _expr.teval_s(as) : 0;
+        std::array<int,DIMS> bs = as;
+        for (FASTOR_INDEX j=0; j<_Stride; ++j) {
+            bs[DIMS-1] = as[DIMS-1] + int(j);
+            inds[j] = fl_expr.teval_s(bs) ? _expr.teval_s(bs) : 0;
+        }
         _vec.load(inds,false);
         return _vec;
     }
